@@ -855,6 +855,18 @@ where
     /// Gets the root hash at the current epoch.
     #[cfg_attr(feature = "tracing_instrument", tracing::instrument(skip_all))]
     pub async fn get_epoch_hash(&self) -> Result<EpochHash, AkdError> {
+        // The guard will be dropped at the end of the request: like every other request this one
+        // reads through the object cache, so it must not overlap with the cache flush of
+        // poll_for_azks_changes (a record it read before the flush would be cached after it)
+        #[cfg(not(feature = "tracing_instrument"))]
+        let _guard = self.cache_lock.read().await;
+        #[cfg(feature = "tracing_instrument")]
+        let _guard = self
+            .cache_lock
+            .read()
+            .instrument(tracing::info_span!("cache_lock.read"))
+            .await;
+
         let current_azks = self.retrieve_azks().await?;
         let latest_epoch = current_azks.get_latest_epoch();
         let root_hash = current_azks.get_root_hash::<TC, _>(&self.storage).await?;
